@@ -280,11 +280,13 @@ async def _drive_integration(case: dict[str, Any], out: dict[str, Any]) -> None:
     pool = BatteryPool(pool_ref_store=store, name="vf", priority=0, set_operating_point=False)
     agg = None
     rx = None
+    crx = None
     t0 = loop.time()
     for n_ev, e in enumerate(case["events"]):
         if agg is None and n_ev >= case.get("access_after_event", 0):
             agg = pool.soc  # first access creates the aggregator
             rx = agg.new_receiver(limit=1000)
+            crx = pool.capacity.new_receiver(limit=1000)  # the capacity aggregator over the same store
         dt = t0 + e[0] - loop.time()
         if dt > 0:
             await asyncio.sleep(dt)
@@ -308,6 +310,10 @@ async def _drive_integration(case: dict[str, Any], out: dict[str, Any]) -> None:
     out["n_results"] = n
     out["last"] = None if last is None or last.value is None else last.value.as_percent()
     out["last_is_none_sample"] = last is not None and last.value is None
+    clast = None
+    while crx._q:  # noqa: SLF001
+        clast = crx.consume()
+    out["cap_last"] = None if clast is None or clast.value is None else clast.value.as_watt_hours()
     await store.stop()
 
 
@@ -352,6 +358,17 @@ def check_integration(case: dict[str, Any], rec: Any) -> None:
     bats = {str(b): (d if cp - last_data.get(b, -1e9) <= MAXAGE + 1e-6 else {}) for b, d in cache.items()}
     n, used, tot = _ref_soc(bats, sorted(working))
     rec.count("integration_checkpoints")
+    # pool capacity through the same path: sum of usable capacities of the working batteries with cap and limits
+    cq = [d for b in sorted(working) if (d := bats.get(str(b))) is not None and all(k in d for k in ("cap", "lo", "hi"))]
+    cexp = float(sum(F(d["cap"]) * (F(d["hi"]) - F(d["lo"])) / 100 for d in cq)) if cq else None
+    wc = {"events_tail": case["events"][-6:], "working": sorted(working), "cache_model": bats,
+          "capacity_emitted_last": out.get("cap_last"), "expected": cexp}
+    rec.count("integration_capacity_checkpoints")
+    if cexp is None:
+        if out.get("cap_last") is not None:
+            rec.violation("integration:capacity-streamed-although-no-battery-qualifies", wc)
+    elif out.get("cap_last") is None or abs(out["cap_last"] - cexp) > 1e-9 * max(1.0, abs(cexp)):
+        rec.violation("integration:streamed-capacity-differs-from-sum-of-usable-capacities", wc)
     w = {"events_tail": case["events"][-8:], "working": sorted(working), "cache_model": bats, "emitted_last": out.get("last"),
          "n_results": out.get("n_results")}
     if n == 0:
